@@ -311,78 +311,275 @@ func describeFx(p string) string {
 // destinations of one Scan call (id column and point fields).
 func c01LockStep(c *kit.Ctx, wl *writerLoop, r3 *kit.Rule) {
 	f := wl.f
-	info := f.Info()
 	o := r3.Ob(f, wl.dbLoop, wl.w.Table+": stored ids in lock-step", "ids[j] is the row id scanned with points[j]")
 	if wl.dbIDs == nil {
 		o.Violation("no write re-uses a stored row id (no append of <ids>[<stored index>] on the reuse path)")
 		return
 	}
+	kind, msg := lockStepIn(c, f, wl.dbPts, wl.dbIDs, 0)
+	switch kind {
+	case "ok":
+		o.OK("%s", msg)
+	case "viol":
+		o.Violation("%s", msg)
+	default:
+		o.Undecided("%s", msg)
+	}
+}
+
+// returnsOf lists the result expressions of every return of f that has a result
+// per declared result (bare returns of named results are expanded).
+func returnsOf(f *kit.Func) [][]ast.Expr {
+	var named []ast.Expr
+	n := 0
+	if f.Type.Results != nil {
+		for _, fl := range f.Type.Results.List {
+			if len(fl.Names) == 0 {
+				n++
+			}
+			for _, nm := range fl.Names {
+				named = append(named, nm)
+				n++
+			}
+		}
+	}
+	var out [][]ast.Expr
+	ast.Inspect(f.Body, func(x ast.Node) bool {
+		if _, ok := x.(*ast.FuncLit); ok {
+			return false
+		}
+		if r, ok := x.(*ast.ReturnStmt); ok {
+			switch {
+			case len(r.Results) == n && n > 0:
+				out = append(out, r.Results)
+			case len(r.Results) == 0 && len(named) == n && n > 0:
+				out = append(out, named)
+			}
+		}
+		return true
+	})
+	return out
+}
+
+type scanRef struct {
+	f    *kit.Func
+	call *ast.CallExpr
+}
+
+// scansOn lists the rows.Scan calls executed on the rows value `rows` of f:
+// directly, or in a same-package helper that receives it as an argument.
+func scansOn(f *kit.Func, rows types.Object, depth int) []scanRef {
+	info := f.Info()
+	var out []scanRef
+	for _, call := range f.AllCalls(false) {
+		if kit.CallIs(info, call, "database/sql.(*Rows).Scan") {
+			if sel, ok := ast.Unparen(call.Fun).(*ast.SelectorExpr); ok && kit.ObjOf(info, sel.X) == rows {
+				out = append(out, scanRef{f, call})
+			}
+			continue
+		}
+		if depth >= 2 {
+			continue
+		}
+		for i, a := range call.Args {
+			if kit.ObjOf(info, a) != rows {
+				continue
+			}
+			cf := f.CalleeFunc(call)
+			if cf == nil || cf.Body == nil || cf.PkgRel() != f.PkgRel() {
+				continue
+			}
+			if ps := cf.Params(); i < len(ps) {
+				out = append(out, scansOn(cf, ps[i], depth+1)...)
+			}
+		}
+	}
+	return out
+}
+
+// varOf returns the variable an expression names (nil for literals, nil, calls).
+func varOf(f *kit.Func, e ast.Expr) types.Object {
+	if v, ok := kit.ObjOf(f.Info(), e).(*types.Var); ok {
+		return v
+	}
+	return nil
+}
+
+// rowPairFrom reports whether id and pt (variables of f) are filled from one
+// row: one rows.Scan whose first destination is &id and some destination is
+// &pt.<field>.  Returns the Scan call.
+func rowPairFrom(f *kit.Func, within ast.Node, id, pt types.Object) (*ast.CallExpr, string) {
+	info := f.Info()
+	var scan *ast.CallExpr
+	ast.Inspect(within, func(n ast.Node) bool {
+		if call, ok := n.(*ast.CallExpr); ok && kit.CallIs(info, call, "database/sql.(*Rows).Scan") {
+			scan = call
+		}
+		return true
+	})
+	if scan == nil || len(scan.Args) == 0 {
+		return nil, "none"
+	}
+	idDest := false
+	if u, ok := ast.Unparen(scan.Args[0]).(*ast.UnaryExpr); ok && u.Op == token.AND && kit.ObjOf(info, u.X) == id {
+		idDest = true
+	}
+	ptDest := false
+	for _, a := range scan.Args {
+		if u, ok := ast.Unparen(a).(*ast.UnaryExpr); ok && u.Op == token.AND {
+			if sel, ok := ast.Unparen(u.X).(*ast.SelectorExpr); ok && kit.ObjOf(info, sel.X) == pt {
+				ptDest = true
+			}
+		}
+	}
+	if !idDest || !ptDest {
+		return scan, "mismatch"
+	}
+	return scan, ""
+}
+
+// lockStepIn decides whether the slices pts and ids of f are built so that
+// ids[j] is the row id scanned with pts[j].  Accepted constructions:
+//   - both appended, unconditionally, in one block whose values come from one
+//     rows.Scan (first column -> the id, point fields -> the point) or from one
+//     call of a helper that returns such a pair;
+//   - both returned by one call of a helper in which the same holds.
+//
+// Anything else is "undec" (not a violation: the construction is not recognised).
+func lockStepIn(c *kit.Ctx, f *kit.Func, pts, ids types.Object, depth int) (kind, msg string) {
+	info := f.Info()
 	var ptsApp, idsApp *ast.AssignStmt
+	var ptsCall, idsCall *ast.AssignStmt
 	ast.Inspect(f.Body, func(n ast.Node) bool {
 		as, ok := n.(*ast.AssignStmt)
-		if !ok || len(as.Lhs) != 1 || len(as.Rhs) != 1 {
+		if !ok || len(as.Rhs) != 1 {
 			return true
 		}
 		call, ok := ast.Unparen(as.Rhs[0]).(*ast.CallExpr)
 		if !ok {
 			return true
 		}
-		if b, ok := kit.Callee(info, call).(*types.Builtin); !ok || b.Name() != "append" {
+		if b, ok := kit.Callee(info, call).(*types.Builtin); ok && b.Name() == "append" && len(as.Lhs) == 1 {
+			switch kit.ObjOf(info, as.Lhs[0]) {
+			case pts:
+				ptsApp = as
+			case ids:
+				idsApp = as
+			}
 			return true
 		}
-		switch wl.obj(as.Lhs[0]) {
-		case wl.dbPts:
-			ptsApp = as
-		case wl.dbIDs:
-			idsApp = as
+		for _, l := range as.Lhs {
+			switch kit.ObjOf(info, l) {
+			case pts:
+				ptsCall = as
+			case ids:
+				idsCall = as
+			}
 		}
 		return true
 	})
-	if ptsApp == nil || idsApp == nil {
-		o.Violation("stored points / stored ids are not both built by append")
-		return
-	}
-	pa, pb := c.P.Parent(f.File, ptsApp), c.P.Parent(f.File, idsApp)
-	if pa != pb {
-		o.Violation("stored points and stored ids are appended in different blocks (%s vs %s): indices can diverge", f.At(ptsApp), f.At(idsApp))
-		return
-	}
-	// both values come from the same Scan call
-	pcall := ast.Unparen(ptsApp.Rhs[0]).(*ast.CallExpr)
-	icall := ast.Unparen(idsApp.Rhs[0]).(*ast.CallExpr)
-	pv, iv := wl.obj(pcall.Args[1]), wl.obj(icall.Args[1])
-	var scan *ast.CallExpr
-	if blk, ok := pa.(*ast.BlockStmt); ok {
-		for _, st := range blk.List {
-			ast.Inspect(st, func(n ast.Node) bool {
-				if call, ok := n.(*ast.CallExpr); ok && kit.CallIs(info, call, "database/sql.(*Rows).Scan") {
-					scan = call
-				}
-				return true
-			})
-		}
-	}
-	if scan == nil || len(scan.Args) == 0 {
-		o.Violation("no rows.Scan in the block that appends the stored points")
-		return
-	}
-	idDest := false
-	if u, ok := ast.Unparen(scan.Args[0]).(*ast.UnaryExpr); ok && u.Op == token.AND && wl.obj(u.X) == iv {
-		idDest = true
-	}
-	ptDest := false
-	for _, a := range scan.Args {
-		if u, ok := ast.Unparen(a).(*ast.UnaryExpr); ok && u.Op == token.AND {
-			if sel, ok := ast.Unparen(u.X).(*ast.SelectorExpr); ok && wl.obj(sel.X) == pv {
-				ptDest = true
+	pos := func(as *ast.AssignStmt, o types.Object) int {
+		for i, l := range as.Lhs {
+			if kit.ObjOf(info, l) == o {
+				return i
 			}
 		}
+		return -1
 	}
-	if !idDest || !ptDest {
-		o.Violation("the id appended to the stored ids is not the first (id) column scanned together with the appended point")
-		return
+	switch {
+	case ptsApp != nil && idsApp != nil:
+		pa, pb := c.P.Parent(f.File, ptsApp), c.P.Parent(f.File, idsApp)
+		if pa != pb {
+			return "viol", "stored points and stored ids are appended in different blocks (" + f.At(ptsApp) + " vs " + f.At(idsApp) + "): indices can diverge"
+		}
+		pcall := ast.Unparen(ptsApp.Rhs[0]).(*ast.CallExpr)
+		icall := ast.Unparen(idsApp.Rhs[0]).(*ast.CallExpr)
+		if len(pcall.Args) != 2 || len(icall.Args) != 2 {
+			return "undec", "stored points / ids are appended several at a time"
+		}
+		pv, iv := kit.ObjOf(info, pcall.Args[1]), kit.ObjOf(info, icall.Args[1])
+		if pv == nil || iv == nil {
+			return "undec", "the appended values are not plain variables (`" + f.Str(pcall.Args[1]) + "`, `" + f.Str(icall.Args[1]) + "`)"
+		}
+		scan, why := rowPairFrom(f, pa, iv, pv)
+		switch why {
+		case "":
+			return "ok", "append(" + f.Str(pcall.Args[0]) + ") and append(" + f.Str(icall.Args[0]) + ") in one block after " + f.At(scan)
+		case "mismatch":
+			return "viol", "the id appended to the stored ids is not the first (id) column scanned together with the appended point"
+		}
+		// a helper that returns the pair
+		var prod *ast.AssignStmt
+		if blk, ok := pa.(*ast.BlockStmt); ok {
+			for _, st := range blk.List {
+				if as, ok := st.(*ast.AssignStmt); ok && len(as.Rhs) == 1 && pos(as, iv) >= 0 && pos(as, pv) >= 0 {
+					prod = as
+				}
+			}
+		}
+		if prod == nil {
+			return "undec", "no rows.Scan and no helper call producing both `" + iv.Name() + "` and `" + pv.Name() + "` in the block that appends the stored points"
+		}
+		call, _ := ast.Unparen(prod.Rhs[0]).(*ast.CallExpr)
+		var h *kit.Func
+		if call != nil {
+			h = f.CalleeFunc(call)
+		}
+		if h == nil || h.Body == nil || depth > 2 {
+			return "undec", "`" + f.Str(prod.Rhs[0]) + "` produces the id and the point; its body is not available"
+		}
+		c.Analysed(h)
+		ii, pi := pos(prod, iv), pos(prod, pv)
+		n := 0
+		for _, rs := range returnsOf(h) {
+			ro, po := varOf(h, rs[ii]), varOf(h, rs[pi])
+			if ro == nil || po == nil {
+				continue // zero values on an error return
+			}
+			hscan, why := rowPairFrom(h, h.Body, ro, po)
+			switch why {
+			case "none":
+				return "undec", "helper " + h.Name + " returns an id and a point that do not come from a rows.Scan in it"
+			case "mismatch":
+				return "viol", "helper " + h.Name + " returns as row id a value that is not the first (id) column scanned together with the returned point (" + h.At(hscan) + ")"
+			}
+			n++
+		}
+		if n == 0 {
+			return "undec", "helper " + h.Name + ": no return of an (id, point) pair found"
+		}
+		return "ok", "append(" + f.Str(pcall.Args[0]) + ") and append(" + f.Str(icall.Args[0]) + ") in one block from one call of " + h.Name + " (id column and point of one row)"
+	case ptsApp == nil && idsApp == nil && ptsCall != nil && ptsCall == idsCall:
+		call, _ := ast.Unparen(ptsCall.Rhs[0]).(*ast.CallExpr)
+		var h *kit.Func
+		if call != nil {
+			h = f.CalleeFunc(call)
+		}
+		if h == nil || h.Body == nil || depth > 2 {
+			return "undec", "`" + f.Str(ptsCall.Rhs[0]) + "` returns the stored points and ids; its body is not available"
+		}
+		c.Analysed(h)
+		pi, ii := pos(ptsCall, pts), pos(ptsCall, ids)
+		n := 0
+		desc := ""
+		for _, rs := range returnsOf(h) {
+			po, io := varOf(h, rs[pi]), varOf(h, rs[ii])
+			if po == nil || io == nil {
+				continue // nil, nil on an error return
+			}
+			k, m := lockStepIn(c, h, po, io, depth+1)
+			if k != "ok" {
+				return k, "in helper " + h.Name + ": " + m
+			}
+			desc = m
+			n++
+		}
+		if n == 0 {
+			return "undec", "helper " + h.Name + ": no return of the two slices found"
+		}
+		return "ok", "both returned by " + h.Name + ": " + desc
 	}
-	o.OK("append(%s) and append(%s) in one block after %s", f.Str(pcall.Args[0]), f.Str(icall.Args[0]), f.At(scan))
+	return "undec", "stored points / stored ids are not built by a recognised construction (appends in one block, or one helper call returning both)"
 }
 
 func migrationKeyConst(m *storeModel) string {
@@ -808,14 +1005,30 @@ func c01SQL(c *kit.Ctx, m *storeModel, r6 *kit.Rule) {
 		if s.Method != "Query" {
 			continue
 		}
-		tables := map[string]bool{}
+		// (table, reader) bindings: for a wrapper body one per caller that names the table
+		type binding struct {
+			tbl string
+			via *kit.SQLSite
+		}
+		var binds []binding
+		seenB := map[string]bool{}
+		addB := func(tbl string, via *kit.SQLSite) {
+			k := tbl
+			if via != nil {
+				k += "@" + via.F.Name
+			}
+			if !seenB[k] {
+				seenB[k] = true
+				binds = append(binds, binding{tbl, via})
+			}
+		}
 		if s.QueryParam {
 			// wrapper body: tables from its callers
 			for _, cs := range m.sql.Sites {
 				if cs.Recv == "wrapper" && cs.F.CalleeFunc(cs.Call) == s.F.Root() {
 					for _, st := range cs.Stmts {
 						if st.Verb == "SELECT" && len(st.Cols) == 1 && st.Cols[0] == "*" {
-							tables[st.Table] = true
+							addB(st.Table, cs)
 						}
 					}
 				}
@@ -823,11 +1036,12 @@ func c01SQL(c *kit.Ctx, m *storeModel, r6 *kit.Rule) {
 		} else {
 			for _, st := range s.Stmts {
 				if st.Verb == "SELECT" && len(st.Cols) == 1 && st.Cols[0] == "*" {
-					tables[st.Table] = true
+					addB(st.Table, nil)
 				}
 			}
 		}
-		for tbl := range tables {
+		for _, bd := range binds {
+			tbl := bd.tbl
 			if tbl != "node_points" && tbl != "edge_points" {
 				continue
 			}
@@ -838,22 +1052,40 @@ func c01SQL(c *kit.Ctx, m *storeModel, r6 *kit.Rule) {
 				continue
 			}
 			rows := kit.ObjOf(info, as.Lhs[0])
-			for _, call := range f.AllCalls(false) {
-				if !kit.CallIs(info, call, "database/sql.(*Rows).Scan") {
-					continue
-				}
-				sel, ok := ast.Unparen(call.Fun).(*ast.SelectorExpr)
-				if !ok || kit.ObjOf(info, sel.X) != rows {
-					continue
-				}
+			qf := f
+			for _, sc := range scansOn(qf, rows, 0) {
+				call := sc.call
+				f := sc.f
+				info := f.Info()
 				readers++
 				cols := m.sql.Tables[tbl]
 				key := tbl + ": scan in " + f.Name
+				if f != qf {
+					// a row-scanning helper shared by several readers: one obligation per reader
+					key += " for " + qf.Name
+				}
 				if s.Recv != "tx" || s.QueryParam {
 					key += " (" + s.Recv + ")"
 				}
+				if bd.via != nil {
+					key += " called from " + bd.via.F.Name
+				}
 				// several scans of the same table in one function (merge loop and new-edge branch)
-				o := r6.Ob(f, call, key+ordinalOf(f, call, rows), "SELECT * destinations follow the table's column order and land in the like-named Point field")
+				ord := ""
+				if f == qf {
+					ord = ordinalOf(f, call, rows)
+				} else {
+					n := 0
+					for _, s2 := range m.sql.Sites {
+						if s2.F == qf && s2.Method == "Query" && s2.Call.Pos() < s.Call.Pos() && s2.HasVerb("SELECT", tbl) {
+							n++
+						}
+					}
+					if n > 0 {
+						ord = " #" + strconv.Itoa(n+1)
+					}
+				}
+				o := r6.Ob(qf, s.Call, key+ord, "SELECT * destinations follow the table's column order and land in the like-named Point field")
 				if len(call.Args) != len(cols) {
 					o.Violation("Scan has %d destinations, table %s has %d columns", len(call.Args), tbl, len(cols))
 					continue
